@@ -55,20 +55,49 @@ def validate(seed):
     return res
 
 
-def run(seed, tier="quick", pid=None):
+def run(seed, tier="quick", pid=None, inplace=False):
+    """Run the property's check against the seeded change.  Default: a scratch worktree of /repo HEAD
+    with the patch applied, put first on PYTHONPATH (so /repo itself — and anything else running
+    against it — is not disturbed).  inplace=True applies the patch to /repo and undoes it afterwards."""
     seed = Path(seed).resolve()
     meta = json.loads((seed / "meta.json").read_text())
     pid = pid or meta["property"]
-    rc, out = sh("git -C /repo status --porcelain -- synkit")
-    assert out.strip() == "", "refusing: /repo has uncommitted changes\n" + out
-    rc, out = sh(f"git -C /repo apply {seed/'patch.diff'}")
-    assert rc == 0, out
+    ev = ROOT / "evidence" / f"{pid}.json"
+    saved = ev.read_text() if ev.exists() else None
     try:
-        rc, out = sh(f"./check {pid} --tier {tier}", cwd=ROOT, timeout=7200)
+        return _run(seed, tier, pid, inplace)
     finally:
-        sh("git -C /repo checkout -- .")
+        if saved is not None:
+            ev.write_text(saved)      # the evidence of a seeded run is not evidence about /repo
+
+
+def _run(seed, tier, pid, inplace):
+    if inplace:
+        rc, out = sh("git -C /repo status --porcelain -- synkit")
+        assert out.strip() == "", "refusing: /repo has uncommitted changes\n" + out
+        rc, out = sh(f"git -C /repo apply {seed/'patch.diff'}")
+        assert rc == 0, out
+        try:
+            rc, out = sh(f"./check {pid} --tier {tier}", cwd=ROOT, timeout=7200)
+        finally:
+            sh("git -C /repo checkout -- .")
+    else:
+        wt = Path(tempfile.mkdtemp(prefix="seedrun_", dir="/tmp"))
+        shutil.rmtree(wt)
+        rc, out = sh(f"git -C /repo worktree add --detach {wt} HEAD")
+        assert rc == 0, out
+        try:
+            rc, out = sh(f"git apply {seed/'patch.diff'}", cwd=wt)
+            assert rc == 0, out
+            env = dict(os.environ, PYTHONPATH=str(wt))
+            chk, o2 = sh(f"{PY} -c 'import synkit; print(synkit.__file__)'", cwd=ROOT, env=env)
+            assert str(wt) in o2, "worktree is not the imported synkit: " + o2
+            rc, out = sh(f"./check {pid} --tier {tier}", cwd=ROOT, env=env, timeout=7200)
+        finally:
+            sh(f"git -C /repo worktree remove --force {wt}")
+            shutil.rmtree(wt, ignore_errors=True)
     lines = [l for l in out.splitlines() if l.startswith(("VIOLATION", "KNOWN-FINDING", "[" + pid))]
-    return {"check": pid, "tier": tier, "exit": rc, "lines": lines[-6:]}
+    return {"check": pid, "tier": tier, "exit": rc, "lines": [l[:300] for l in lines[-6:]]}
 
 
 if __name__ == "__main__":
@@ -76,7 +105,7 @@ if __name__ == "__main__":
     if cmd == "validate":
         print(json.dumps(validate(sys.argv[2]), indent=1))
     elif cmd == "run":
-        print(json.dumps(run(sys.argv[2], *(sys.argv[3:])), indent=1))
+        print(json.dumps(run(sys.argv[2], *(sys.argv[3:5])), indent=1))
     elif cmd == "record":
         # validate + run (quick; thorough too when quick misses) and store the outcome next to the seed
         seed = Path(sys.argv[2]).resolve()
